@@ -620,6 +620,18 @@ func generate(cfg *hx.Config, emit func(kind string, in []string)) {
 		emit("big", genIntegrationBig(rng.Fork(), k))
 		cfg.Count("integration-big-start")
 	}
+	// 3c. a halt in progress x a configuration POST x an unrelated exchange on a new connection
+	nx := 1
+	if cfg.Thorough() {
+		nx = 6
+	}
+	for k := 0; k < nx; k++ {
+		r := rng.Fork()
+		d := r.Range(1500, 1900)
+		emit("halt", []string{"X", fmt.Sprintf("S:%s:0", hx.HexS(rxA)), fmt.Sprintf("H:%d:%d:%d", r.Range(0, 40), d, []int{1, 2, -1}[r.Intn(3)]), "|",
+			"u:" + hx.HexS(fmt.Sprintf("http://example/a%d", r.Intn(100))), "f:" + hx.HexS(fmt.Sprintf("http://other/fast%d", r.Intn(100))), fmt.Sprintf("d:%d", d)})
+		cfg.Count("halt-interleaving")
+	}
 	// 3b. keep-alive connections with several responses
 	nk := 90
 	if cfg.Thorough() {
